@@ -417,7 +417,9 @@ fn random(args: &Args) {
     while done < total && st.hangs < MAX_HANGS && st.hangs + st.panics < MAX_FAILS {
         let fam = FAMILIES[(histories as usize + rng.below(2) * 4) % FAMILIES.len()];
         let status = if histories % 2 == 0 { "u32" } else { "usize" };
-        let nkeys = 6 + rng.below(maxkeys - 5);
+        // ten short "to the brim" histories after every long random one
+        let brim = histories % 11 != 0;
+        let nkeys = if brim { maxkeys } else { 6 + rng.below(maxkeys - 5) };
         let hash = hashes(fam, nkeys, &mut rng);
         let keys: Vec<(u32, u64)> = hash.iter().enumerate().map(|(i, &h)| (i as u32 + 1, h)).collect();
         *fams_used.entry(fam.to_string()).or_insert(0) += 1;
@@ -445,6 +447,84 @@ fn random(args: &Args) {
         let mut n = 0u64;
         let mut sweep = 0usize;
         let mut refill = false;
+        // "to the brim": the free-slot accounting after removals and a bulk call only matters when
+        // the table is filled up afterwards.  Fill 8..12 keys, remove some (in index order from the
+        // back, from the front or at random: tombstones behind / before the remaining elements),
+        // one bulk call, then insert absent keys one by one until the table grows or all keys are in,
+        // with a look-up of an absent key after every insertion (a full table makes it spin).
+        if brim {
+            let mut order: Vec<usize> = (0..nkeys).collect();
+            rng.shuffle(&mut order);
+            let nf = (8 + rng.below(5)).min(nkeys);
+            let mut present: Vec<usize> = order[..nf].to_vec();
+            for &k in &present {
+                stamp = (stamp + 1) % 1_000_000;
+                call!(json!({"ev": "insert", "t": cur, "k": keys[k].0, "v": stamp, "h": keys[k].1.to_string()}));
+            }
+            let mut victims: Vec<usize> = present.clone();
+            match rng.below(5) {
+                0 => victims.sort_by(|a, b| (keys[*b].1 % 16).cmp(&(keys[*a].1 % 16))), // home slots from the back
+                1 => victims.sort_by(|a, b| (keys[*a].1 % 16).cmp(&(keys[*b].1 % 16))), // ... from the front
+                2 => {}                  // in insertion order: the head of every collision chain
+                3 => victims.reverse(),  // ... the tail
+                _ => rng.shuffle(&mut victims),
+            }
+            victims.truncate(rng.below(nf + 1));
+            for &k in &victims {
+                if !ok {
+                    break;
+                }
+                call!(json!({"ev": "remove", "t": cur, "k": keys[k].0, "h": keys[k].1.to_string()}));
+            }
+            present.retain(|k| !victims.contains(k));
+            if ok {
+                match rng.below(9) {
+                    0 | 8 => {
+                        call!(json!({"ev": "clear", "t": cur}));
+                        present.clear();
+                    }
+                    1 => {
+                        call!(json!({"ev": "drain", "t": cur}));
+                        present.clear();
+                    }
+                    2 => {
+                        // the table is empty afterwards whatever is taken
+                        call!(json!({"ev": "drain_partial", "t": cur, "take": rng.below(4)}));
+                        present.clear();
+                    }
+                    3 => {
+                        call!(json!({"ev": "retain", "t": cur, "p": []}));
+                        present.clear();
+                    }
+                    4 => {
+                        let keep: Vec<usize> = present.iter().copied().filter(|_| rng.chance(1, 2)).collect();
+                        let p: Vec<u32> = keep.iter().map(|&k| keys[k].0).collect();
+                        call!(json!({"ev": "retain", "t": cur, "p": p}));
+                        present = keep;
+                    }
+                    5 => call!(json!({"ev": "reserve", "t": cur, "n": rng.below(3)})),
+                    _ => {}
+                }
+            }
+            let slots0 = st.slots[cur];
+            let absent: Vec<usize> = (0..nkeys).filter(|k| !present.contains(k)).collect();
+            for (i, &k) in absent.iter().enumerate() {
+                if !ok || st.slots[cur] != slots0 {
+                    break;
+                }
+                stamp = (stamp + 1) % 1_000_000;
+                call!(json!({"ev": "insert", "t": cur, "k": keys[k].0, "v": stamp, "h": keys[k].1.to_string()}));
+                if let Some(&a) = absent.get(i + 1) {
+                    if ok {
+                        call!(json!({"ev": "find", "t": cur, "k": keys[a].0, "h": keys[a].1.to_string()}));
+                    }
+                }
+            }
+            if ok {
+                call!(audit_cmd(cur, &keys));
+            }
+            n = hist_len;
+        }
         while ok && n < hist_len && done < total {
             // a phase: fill / churn / purge (random or sweeping over the keys in order) / lookups
             // (after emptying a table it is usually filled again)
